@@ -137,6 +137,16 @@ def r3(ctx, rep):
         ok = "('lit', '0')" in rows and "_" in rows and all(
             any(r.get("k") == "return" and show(r.get("e")).startswith("Err(") for r in walk(rows[k]["body"])) for k in ("('lit', '0')", "_"))
     rep.check(ok, "inference-source", "a column that could come from zero or from several wildcard inputs must be an error", file=f["file"], line=f["l"], fn=f["path"])
+    # `select !{a}` leaves `All { input_id, except: {a} }` in the frame: the scope built from the frame must know the exclusions, otherwise `a` is inferred back into the relation
+    fr = syn.fn("Module::insert_frame", crate="prqlc")
+    arms = [arm for m in matches_of(fr["body"]) for arm in m["arms"] if "LineageColumn::All" in show(arm["pat"])
+            and any("NS_INFER" in show(x, maxdepth=4) for x in walk(arm["body"]) if x.get("k") == "mcall" and x["m"] == "insert")]
+    rep.check(len(arms) == 1, "infer-decl-site", f"expected the arm of insert_frame that declares NS_INFER for a `LineageColumn::All`, found {len(arms)}", file=fr["file"], line=fr["l"], fn=fr["path"])
+    for arm in arms:
+        binds = [a for a, b in arm["pat"].get("f", [])] if arm["pat"].get("k") == "p_struct" else []
+        uses = "except" in binds and any(x.get("k") == "path" and x["p"] == "except" for x in walk(arm["body"]))
+        rep.check(uses, "infer-ignores-except", "insert_frame declares the inference slot of `t.*` without looking at the `except` set of the frame column: after `select !{a}` the name `a` is inferred "
+                  "into `t` again (`from t | select !{a} | select a` compiles to `SELECT a FROM t`)", file=fr["file"], line=arm["l"], fn=fr["path"])
 
 
 def r4(ctx, rep):
